@@ -35,7 +35,8 @@ KINDS = ["inbound_req_basic", "inbound_req_threading", "inbound_req_threading_no
          "dwr_from_node", "rejected_requests", "conn_closed_by_peer", "conn_closed_by_node", "connect_refused",
          "connect_failed_async", "cea_rejected", "cer_rejected_no_common_app", "unknown_peer", "ce_timeout",
          "refused_while_stopping", "late_and_unknown_answers", "conn_with_request_closed", "outbound_req_timeout",
-         "conn_closed_mid_frame", "inbound_req_raise", "inbound_req_threading_raise"]
+         "conn_closed_mid_frame", "inbound_req_raise", "inbound_req_threading_raise",
+         "second_conn_cycles"]
 PEER = "peer1.verif.example"
 
 
@@ -246,6 +247,23 @@ class Kind:
                 sp = self.connect(i)
                 sp.close()
                 h.settle()
+        elif kind == "second_conn_cycles":
+            # the peer keeps one connection for good and opens, uses and closes a second one N times
+            first = self.connect(0)
+            for i in range(n):
+                sp = self.connect(i + 1)
+                hbh, e2e = self.ids()
+                sp.send(M.ccr(PEER, REALM, REALM, app=4, hbh=hbh, e2e=e2e, session=f"c;{i}"))
+                h.settle()
+                hbh, e2e = self.ids()
+                first.send(M.ccr(PEER, REALM, REALM, app=4, hbh=hbh, e2e=e2e, session=f"f;{i}"))
+                h.settle()
+                if i % 3 == 0:
+                    sp.send(M.dpr(PEER, REALM, hbh=9, e2e=9))
+                    h.settle()
+                sp.close()
+                h.settle()
+                first.frames.clear()
         elif kind == "conn_closed_mid_frame":
             for i in range(n):
                 sp = self.connect(i)
